@@ -110,6 +110,42 @@ def _dict_shard(ss):
     return part.data()
 
 
+def _cross_shard(bodies):
+    """two-step histories in ONE process: literals of different kinds with the SAME body text, one after the other (a
+    decompression result must depend on the kind of the literal, not only on its text)"""
+    import vyxal.encoding as enc
+    from vyxal.helpers import from_base_alphabet, to_base_alphabet
+
+    part = explore.Partial()
+
+    def expect(kind, body):
+        if kind == "cnumber":
+            return from_base_alphabet(body, enc.codepage_number_compress)
+        if kind == "cstring":
+            return to_base_alphabet(from_base_alphabet(body, enc.codepage_string_compress), enc.base_27_alphabet)
+        return None
+
+    wrap = {"cnumber": "»%s»", "cstring": "«%s«", "string": "`%s`"}
+    import itertools as it
+
+    for body in bodies:
+        for k1, k2 in it.permutations(("cnumber", "cstring", "string"), 2):
+            if k2 == "string":
+                continue  # the value of a plain string depends on dictionary decompression: compare the two codecs only
+            want = expect(k2, body)
+            run_text(wrap[k1] % body)
+            got = run_text(wrap[k2] % body)
+            part.count()
+            part.nontriv()
+            ok = isinstance(got, list) and len(got) == 1 and plain(got[0]) == want
+            if not ok:
+                part.violation("cross", {"first": wrap[k1] % body, "then": wrap[k2] % body},
+                               "a compressed literal evaluates differently after another literal with the same text",
+                               {"first_kind": k1, "then_kind": k2}, want, got if isinstance(got, str) else [str(x) for x in got], size=len(body))
+    part.section("cross_kind_histories", cases=part.d["evaluations"])
+    return part.data()
+
+
 def _base_shard(args):
     import vyxal.elements as E
 
@@ -179,6 +215,13 @@ def run(tier, seed):
                 dstr.append(w1 + sep + w2)
     dstr = list(dict.fromkeys(dstr))
     explore.pmap(_dict_shard, explore.chunks(dstr, 128), rep, seed)
+    # cross-kind histories
+    sandbox.setup()
+    import vyxal.encoding as enc
+
+    shared = [c for c in enc.codepage if c not in "«»`\\" and c in enc.codepage_number_compress and c in enc.codepage_string_compress]
+    bodies = shared + [a + b for a in shared[:40] for b in shared[:40]]
+    explore.pmap(_cross_shard, explore.chunks(bodies, 32), rep, seed)
     # base conversion
     bases = list(range(2, 301))
     work = []
